@@ -89,7 +89,12 @@ def enc_scheds(ss):
 
 
 def enc_objlist(l):
-    return "".join("N" if o is None else str(o) for o in l) or "-"
+    """objects as outcome shapes: None | int m (shape [m]) | tuple of ints (multi-dimensional shape)"""
+    if not l:
+        return "-"
+    if all(o is None or isinstance(o, int) for o in l):
+        return "".join("N" if o is None else str(o) for o in l)
+    return ".".join("N" if o is None else ("x".join(str(d) for d in o) if isinstance(o, tuple) else str(o)) for o in l) + "."
 
 
 def none_lists(cfg):
@@ -382,7 +387,7 @@ def calc_cases(ctx):
                        tensor_product(generate_povm_from_name("x", c0), generate_povm_from_name("z", c1))],
               "gate": [tensor_product(generate_gate_from_gate_name("hadamard", c0), generate_gate_from_gate_name("x", c1))],
               "mprocess": [tensor_product(M(c0, "z-type1"), M(c1, "z-type1")), tensor_product(M(c0, "x-type1"), qobj.rand_mprocess(g2, c1, 3)[0])]}
-    ms2 = {"state": [1, 1], "povm": [6, 4], "gate": [1], "mprocess": [4, 6], "_multidim": True}
+    ms2 = {"state": [1, 1], "povm": [(2, 3), (2, 2)], "gate": [1], "mprocess": [(2, 2), (2, 3)]}
     n2 = {k: len(v) for k, v in lists2.items()}
     for s in accepted_schedules(4, n2):
         if len(s) < 4 or ctx.rng.random() < (0.25 if ctx.quick else 1.0):
@@ -678,8 +683,8 @@ def correspondence(ctx):
             if impl[0] == "ok":
                 mshape = tuple(int(x) for x in t[1].split(",")) if t[0] == "ok" else None
                 ok = t[0] == "ok" and int(np.prod(mshape)) == len(impl[1])
-                if ok and len(impl) > 2 and not inp[0].get("_multidim"):
-                    ok = mshape == impl[2]      # exact outcome shape, in order (objects with one-dimensional outcome shapes)
+                if ok and len(impl) > 2:
+                    ok = mshape == impl[2]      # exact outcome shape, in order (incl. multi-dimensional tensor-product shapes)
                 impl = ("ok", len(impl[1]), impl[2] if len(impl) > 2 else None)
             elif impl[0] == "isNone":
                 s = inp[1]
